@@ -192,7 +192,46 @@ def degenerate_and_wide_items(tier):
                 yield ("degen_neartied%d" % pi, 0, tied_member(0, (n, m), prof).T.copy())
 
 
+def real_with_singular_values(s, shape, sv):
+    """real matrix with prescribed singular values (orthogonal factors from real generic members)"""
+    m, n = shape
+    r = min(m, n)
+    U = np.linalg.qr(F.generic(s, (m, m), False, tag=32))[0]
+    V = np.linalg.qr(F.generic(s + 50, (n, n), False, tag=33))[0]
+    return (U[:, :r] * np.asarray(sv, dtype=float)) @ V[:, :r].T
+
+
+def pairwise_items(tier):
+    """PAIRWISE combinations of the axes otherwise varied one at a time around the default (complex, unit
+    magnitude, generic, tall): real x {nearly dependent, tied, nearly tied, scaled}, integer x {wide, scaled},
+    wide x {real scaled, real nearly dependent}"""
+    S = 4 if tier == "thorough" else 2
+    for shape in [(1, 1), (2, 2), (3, 2), (4, 4), (4, 2), (2, 3), (1, 3), (3, 1), (5, 5), (3, 5)]:
+        m, n = shape
+        r = min(m, n)
+        for s in range(S):
+            Rg = F.generic(s, shape, False, tag=34)
+            yield ("pair_int", s, np.rint(4 * Rg).astype(np.int64))
+            yield ("pair_int@1000", s, np.rint(4 * Rg).astype(np.int64) * 1000)
+            if m < n:
+                for g in SCALES:
+                    yield ("pair_real@%g" % g, s, g * Rg)
+            if r >= 2:
+                for kappa in (1e2, 1e4, 1e6):
+                    sv = [kappa ** (-i / (r - 1)) for i in range(r)]
+                    yield ("pair_real_neardep%g" % kappa, s, real_with_singular_values(s, shape, sv))
+                    yield ("pair_real_neardep%g@1e-09" % kappa, s, 1e-9 * real_with_singular_values(s, shape, sv))
+                if r in TIED:
+                    for pi, prof in enumerate(TIED[r][:3]):
+                        yield ("pair_real_tied%d" % pi, s, real_with_singular_values(s, shape, prof))
+                for pi, prof in enumerate(near_tied_profiles(r)[:2]):
+                    yield ("pair_real_neartied%d" % pi, s, real_with_singular_values(s, shape, prof))
+                    yield ("pair_real_neartied%d@1e+06" % pi, s, 1e6 * real_with_singular_values(s, shape, prof))
+
+
 def matrix_items(tier):
+    for it in pairwise_items(tier):
+        yield it
     for it in base_matrix_items(tier):
         yield it
     for it in scaled_items(tier):
@@ -445,7 +484,8 @@ def run_gmd(chk, case, A, kappa, sv):
         gm = math.exp(float(np.mean(np.log(sv))))
         r_ = min(m, n)                      # number of singular values (wide matrices: m)
         dg = np.diag(R)[:r_]
-        if not N.close(dg, np.full(r_, gm), 1.0, C):
+        # (the smallest singular value is only determined to eps*kappa relative accuracy, and with it the mean)
+        if not N.close(dg, np.full(r_, gm), kappa, C):
             chk.fail(("gmd", "diagR!=geometric_mean"), case, observed=dg, expected=gm)
         chk.outcome("gmd_rotations", (r_, int(np.sum(np.abs(np.triu(R[:r_, :r_], 1)) > 1e-9 * gm))))
         chk.outcome("gmd_shape_class", ("1x1" if m == n == 1 else "1xn" if m == 1 else "mx1" if n == 1 else
@@ -744,6 +784,61 @@ def update_items(tier):
                 for g in SCALES:
                     for d in itertools.product((-0.5, 0.0, 1.0, 10.0), repeat=n):
                         yield ("%s@%g" % (fam, g), member, g * X, np.array(d) / g)
+        # STRUCTURE of the matrix  x  KIND of the diagonal, all pairs (a Hermitian matrix plus a complex
+        # diagonal is not Hermitian; a real matrix plus a complex diagonal is complex; ...)
+        Sx = 3 if thorough else (2 if n <= 3 else 1)
+        for s in range(Sx):
+            for sname, X in update_structures(s, n):
+                for kind, alph_k in UPDATE_DIAG_KINDS:
+                    a = alph_k if (n <= 3 or thorough) else alph_k[:3]
+                    if n >= 3 and not thorough:
+                        a = a[:3]
+                    for d in itertools.product(a, repeat=n):
+                        yield ("generic:%s/%s" % (sname, kind), s, X, diag_of_kind(d, kind))
+
+
+UPDATE_STRUCTURE_AXIS = ("general_real", "general_complex", "real_symmetric", "complex_hermitian",
+                         "hermitian_pd", "real_spd", "diagonal_real", "diagonal_complex", "identity_real",
+                         "identity_complex")
+UPDATE_DIAG_KINDS = (("real", (0.0, 1.0, -0.5, 10.0)),
+                     ("complex", (0.5 + 0.5j, -1j, 0.0, 2.0 - 1.0j)),
+                     ("complex_dtype_zero_imag", (1.0, 0.0, -0.5, 10.0)),
+                     ("int64", (1, 0, -2, 3)))
+
+
+def diag_of_kind(d, kind):
+    if kind == "complex" or kind == "complex_dtype_zero_imag":
+        return np.array(d, dtype=complex)
+    if kind == "int64":
+        return np.array(d, dtype=np.int64)
+    return np.array(d, dtype=float)
+
+
+def update_structures(s, n):
+    Gr = F.generic(s, (n, n), False, tag=31)
+    Gc = F.generic(s, (n, n), True, tag=31)
+    return [("general_real", Gr), ("general_complex", Gc),
+            ("real_symmetric", (Gr + Gr.T) / 2), ("complex_hermitian", (Gc + Gc.conj().T) / 2),
+            ("hermitian_pd", F.hpd(s, n, 0.1)), ("real_spd", Gr @ Gr.T + 0.1 * np.eye(n)),
+            ("diagonal_real", np.diag(np.diag(Gr))), ("diagonal_complex", np.diag(np.diag(Gc))),
+            ("identity_real", np.eye(n)), ("identity_complex", np.eye(n, dtype=complex))]
+
+
+def run_update_invalid_diagonals(chk):
+    """a diagonal of another length or a Python list is not "a 1D numpy array with the elements in the diagonal
+    of D": invalid calls, recorded as outcomes only (tools/INVALID_CALL_POLICY.md)"""
+    from pyphysim.util import misc
+    X = F.hpd(0, 3, 0.1)
+    for nm, d in (("short_diagonal", np.array([1.0, 0.5])), ("long_diagonal", np.array([1.0, 0.5, 2.0, 1.0])),
+                  ("python_list", [1.0, 0.5, 2.0]), ("two_dimensional", np.ones((3, 1)))):
+        X0 = X.copy()
+        try:
+            misc.update_inv_sum_diag(X, d)
+            how = "accepted"
+        except Exception as e:  # noqa
+            how = "raised:" + type(e).__name__
+        chk.outcome("invalid_call", ("update_inv_sum_diag(%s)" % nm, how,
+                                     "argument_unchanged" if np.array_equal(X, X0) else "argument_changed"))
 
 
 def run_update(chk, case):
@@ -760,12 +855,19 @@ def run_update(chk, case):
         chk.count("excluded_update_partial_sum_ill_conditioned")
         return
     herm = bool(N.close(X, H(X), 1.0, 10.0))
+    dk = ("int_diagonal" if d.dtype.kind in "iu" else "real_diagonal" if not np.iscomplexobj(d) else
+          "complex_diagonal" if np.any(d.imag != 0) else "complex_dtype_diagonal_zero_imag")
+    xk = ("complex_" if np.iscomplexobj(X) else "real_") + ("hermitian_input" if herm else "general_input")
     chk.outcome("update_nonzero_d", (n, int(np.count_nonzero(d))))
     chk.outcome("update_input_class", ("complex" if np.iscomplexobj(X) else "real",
                                        "hermitian" if herm else "general",
                                        "d<0" if np.any(np.real(d) < 0) else "d>=0",
                                        "complex_d" if np.iscomplexobj(d) else "real_d"))
-    with guard(chk, ("update_inv_sum_diag",), case):
+    if ":" in case["fam"]:
+        chk.outcome("update_structure_x_diagonal", case["fam"].split(":")[1])
+    promote = (not np.iscomplexobj(X)) and np.iscomplexobj(d)     # the result needs a wider dtype than invA's
+    with guard(chk, ("update_inv_sum_diag", "real_invA_with_complex_dtype_diagonal") if promote else
+               ("update_inv_sum_diag", xk, dk), case):
         chk.count("eval_update")
         X0 = X.copy()
         R = np.asarray(misc.update_inv_sum_diag(X, d))
@@ -784,17 +886,17 @@ def run_update(chk, case):
         tolR = C * N.EPS * kx * km * N.scale(X) * n
         e1 = N.err(Mx @ R, X)
         if not e1 <= tolR * N.scale(Mx):
-            chk.fail(("update_inv_sum_diag", "(I+X.d).R!=X", "hermitian_input" if herm else "general_input"),
+            chk.fail(("update_inv_sum_diag", "(I+X.d).R!=X", xk, dk),
                      case, observed=e1, expected=0,
                      msg="cond(I+Xd)=%.3g cond(X)=%.3g" % (km, kx))
         Ainv = np.linalg.inv(X) + np.diag(d)                # A + D with A = X^-1 (harness inverse: eps*kx)
         e2 = N.err(R @ Ainv, np.eye(n))
         if not e2 <= tolR * N.scale(Ainv) + C * N.EPS * kx * kx * n:
-            chk.fail(("update_inv_sum_diag", "R.(A+D)!=I", "hermitian_input" if herm else "general_input"),
+            chk.fail(("update_inv_sum_diag", "R.(A+D)!=I", xk, dk),
                      case, observed=e2, expected=0)
         if n > 1:
             chk.nontriv(("update", case["fam"], case["member"], n, tuple(d.tolist())))
-    if case.get("battery"):
+    if case.get("battery") and not promote:
         alias_battery(chk, "update_inv_sum_diag", misc.update_inv_sum_diag, [X, d], case, kx * kpart)
 
 
@@ -833,6 +935,11 @@ def chordal_pairs(tier):
                 for ga, gb in ((1e-9, 1e6), (1e9, 1e-12), (1e-6, 1e-6)):
                     yield ("generic_c@%g,%g" % (ga, gb), (s, s + 1), ga * F.generic(s, (m, k), True, tag=25),
                            gb * F.generic(s + 1, (m, k), True, tag=25))
+                # pairwise: real x scaled, real x complex operands
+                yield ("generic_r@1e-09,1e+06", (s, s + 1), 1e-9 * F.generic(s, (m, k), False, tag=25),
+                       1e6 * F.generic(s + 1, (m, k), False, tag=25))
+                yield ("real_vs_complex", (s, s + 1), F.generic(s, (m, k), False, tag=25),
+                       F.generic(s + 1, (m, k), True, tag=25))
         if k >= 2:
             for kappa in (1e2, 1e4):
                 for s in range(S // 2):
@@ -1037,6 +1144,19 @@ def main(chk: Check):
                "(for smaller k the third return value would need singular values that do not exist)")
     chk.assume("get_principal_component_matrix has no behavioural specification beyond its shape and is not judged")
     chk.assume("peig/leig columns must be linearly independent: sigma_min(V) > 1e-6")
+    chk.extra["axes"] = {
+        "kernel": ["projection", "gmd", "least_right_singular_vectors", "peig", "leig", "calc_whitening_matrix",
+                   "update_inv_sum_diag", "chordal distances (3 routes)", "unit conversions"],
+        "shape_class": ["1x1", "1xn", "mx1", "tall", "square", "wide"],
+        "field": ["complex", "real", "int64"],
+        "structure": ["exhaustive small entries", "generic", "nearly dependent", "tied", "nearly tied"],
+        "magnitude": [1.0] + list(SCALES),
+        "memory_layout": ["C", "F", "read-only transposed view", "read-only C"],
+        "update_structure": list(UPDATE_STRUCTURE_AXIS),
+        "update_diagonal": [k for k, _ in UPDATE_DIAG_KINDS] + ["real d>=0 incl. 1e3", "scaled", "(invalid: short/long/list/2-D: outcomes)"],
+        "pairwise": "every two of {field, structure, magnitude, shape class, layout} occur together at their unusual "
+                    "values (families pair_*, degen_*, *@g, neartied*@g, rint3, aliasing battery on all of them); "
+                    "update part: full cross product structure x diagonal kind"}
     chk.extra["tolerances"] = {"C": C, "rule": "err <= C*2^-52*kappa_eff*scale", "K_PROJ": K_PROJ,
                                "K_MAX": K_MAX, "K_COV": K_COV, "repeated_eigenvalue_gap": GAP_REPEATED}
 
@@ -1058,6 +1178,7 @@ def main(chk: Check):
             c.extra["broken_in_worker"] = str(e)
 
     run_shards(chk, worker)
+    run_update_invalid_diagonals(chk)
     if chk.extra.get("broken_in_worker"):
         raise Broken(chk.extra["broken_in_worker"])
     run_conv(chk)
@@ -1074,6 +1195,7 @@ def main(chk: Check):
     chk.require_outcomes("chordal_bucket", 12)
     chk.require_outcomes("update_nonzero_d", 10)
     chk.require_outcomes("update_input_class", 6)
+    chk.require_outcomes("update_structure_x_diagonal", len(UPDATE_STRUCTURE_AXIS) * len(UPDATE_DIAG_KINDS))
     chk.require_outcomes("conv_bits", 12)
 
 
